@@ -65,20 +65,29 @@ class C10(DiffProperty):
                "harness/c10_root.cpp drives config::root through the virtual config interface; the UBSan vptr check is suppressed "
                "there (harness/c10_ubsan.supp) because mpt++ deliberately views C-allocated buffers as C++ objects",
                "text of a value is read through the vector-of-char conversion (the buffer metatype for long text offers no 's' conversion)"]
-    level_text = ("proof: Coq theorems C10_path_elements (mpt_path_set + repeated mpt_path_next visit exactly the separator-delimited "
-                  "components of any byte string up to the assign character, for every separator and every element length), "
-                  "C10_path_rebuild (building a path element by element with mpt_path_add yields a path that walks back to the same "
-                  "elements, separator and binary mode), C10_config_refines_map / C10_root_refines_map (after ANY history of assign / remove "
-                  "through the global store, its sub-tree views, or a config::root item array, every query returns the value most "
-                  "recently assigned to exactly that path, present-without-value for a mere prefix, absent otherwise), C10_assign_frame "
-                  "and C10_remove_subtree_only (an assignment changes no other path's value, a removal hides exactly the path and what is "
-                  "beneath it), all without bound on path length, element length or history length; the model is tied to the code on "
-                  "every run by differential execution under ASan/UBSan")
+    level_text = ("proof: Coq theorems (coq/C10/Properties.v, all closed under the global context) "
+                  "C10_path_elements / C10_path_elements_string / C10_string_key / C10_path_next_element (mpt_path_set over ANY byte string or C "
+                  "string, any separator, any assign character, any element lengths, yields a well-formed path and repeated mpt_path_next "
+                  "visits exactly the separator-delimited components up to the assign character, each read from inside the storage), "
+                  "C10_path_rebuild (adding the elements one by one with mpt_path_add, separator mode, gives a path that walks back to exactly "
+                  "those elements, every element length), C10_config_refines_map + C10_step_refines (after ANY history of assign / remove / "
+                  "query through the process-global configuration and through sub-tree views on arbitrary base paths, every result class and "
+                  "every queried entry equals the history specification: the value most recently assigned to exactly that path, "
+                  "present-without-value for a mere prefix, absent otherwise), C10_root_refines_map (the same for the C++ config::root slot "
+                  "arrays with unused-slot reuse, eager and lazy removal), C10_assign_frame (an assignment changes the reading of its own key "
+                  "only and makes its prefixes present), C10_remove_subtree_only and C10_clear_beneath_only (a removal hides exactly the key and "
+                  "what is beneath it); no bound on path length, element length, tree size or history length; the model is tied to the code on "
+                  "every run by differential execution under ASan/UBSan (state dumps + every observation path queried after every operation)")
     level_note = ("trusted: Coq kernel; hand transcription of the C/C++ files (validated by the correspondence run, not verified); extraction "
-                  "and OCaml driver; harnesses. The theorems hold for the tree WITH the fix: commits of branch verif-C10 (see docs/notes_C10.md). "
-                  "Guards: element names up to 65534 bytes (16-bit identifier length; longer names are refused by the code), path strings in "
-                  "separator mode as produced by mpt_path_set. Link fields of the node tree, identifier storage and buffer management are "
-                  "other properties' subjects (C14, C16, C04) and only observed here.")
+                  "and OCaml driver; harnesses. The theorems hold for the tree WITH the 14 fix: commits of branch verif-C10 (path_set string end, "
+                  "path_last offset / 8-bit length / binary start / signed length, path_add 8-bit first / binary first after consumption, "
+                  "path_del array cut, meta_new argument order / size threshold, first global element unlink, config_item_query _size, "
+                  "config_item_reserve cut length, config::root::remove set_name) - see docs/notes_C10.md. Guards: element names up to 65534 "
+                  "bytes (16-bit identifier length; longer names are refused after the nodes in front were created - Example "
+                  "C10_name_limit_witness); config::root reports the empty path as absent. NOT proved, only cross-checked against the abstract "
+                  "path specification astep by the correspondence run: binary-length mode (SepBinary) of path_next/add/del/last, mpt_path_last "
+                  "and mpt_path_del, path_add on paths with an offset. Link fields of the node tree (checked by the harness, flag in every "
+                  "observation), identifier storage and buffer management are other properties' subjects (C14, C16, C04).")
     technique = "Coq refinement proof (byte paths + node tree / item slots -> finite map keyed by element lists) + differential correspondence check"
     assumptions = ["allocation succeeds", "values are text (C strings)", "element names are at most 65534 bytes"]
 
